@@ -337,6 +337,40 @@ theorem koyama_lpmin_pos (σ l : ℝ) (hσ : 0 < σ) (hl : σ / 2 < l) : 0 < koy
   have : 0 < 4 * l ^ 2 - σ ^ 2 := by nlinarith
   positivity
 
+/-- `lp_min` is a length: in other units of length it scales like one -/
+theorem koyama_lpmin_units (σ l u : ℝ) (hu : 0 < u) (hd : 4 * l ^ 2 - σ ^ 2 ≠ 0) :
+    koyamaLpMin (u * σ) (u * l) = u * koyamaLpMin σ l := by
+  unfold koyamaLpMin
+  simp only [Lit_ofNat, powN_real, Nat.cast_ofNat]
+  have hd' : 4 * (u * l) ^ 2 - (u * σ) ^ 2 ≠ 0 := by
+    have : 4 * (u * l) ^ 2 - (u * σ) ^ 2 = u ^ 2 * (4 * l ^ 2 - σ ^ 2) := by ring
+    rw [this]; exact mul_ne_zero (pow_ne_zero _ hu.ne') hd
+  field_simp
+
+/-- **the same chain described in other units of length is accepted / rejected alike and takes the same bending-energy branch**
+(the near-freely-jointed test is the RELATIVE distance `(lp − lp_min)/lp_min < 0.001`; an absolute one would not be unit-free) -/
+theorem koyama_decisions_unit_free (σ l lp u : ℝ) (hu : 0 < u) (hσ : 0 < σ) (hl : σ / 2 < l) :
+    koyamaCtorOK (u * σ) (u * l) (u * lp) = koyamaCtorOK σ l lp ∧
+    koyamaLinearised (u * σ) (u * l) (u * lp) = koyamaLinearised σ l lp := by
+  have hl0 : 0 < l := by linarith
+  have hd : 4 * l ^ 2 - σ ^ 2 ≠ 0 := by have : 0 < 4 * l ^ 2 - σ ^ 2 := by nlinarith
+                                        exact this.ne'
+  have hm := koyama_lpmin_units σ l u hu hd
+  have hpos := koyama_lpmin_pos σ l hσ hl
+  constructor
+  · unfold koyamaCtorOK
+    rw [hm]
+    have e1 : (u * σ / Lit.ofNat 2 < u * l) ↔ (σ / Lit.ofNat 2 < l) := by
+      simp only [Lit_ofNat, Nat.cast_ofNat]
+      rw [mul_div_assoc]; exact mul_lt_mul_iff_right₀ hu
+    have e2 : (u * lp < u * koyamaLpMin σ l) ↔ (lp < koyamaLpMin σ l) := mul_lt_mul_iff_right₀ hu
+    simp only [e1, e2]
+  · unfold koyamaLinearised
+    rw [hm]
+    have e : (u * lp - u * koyamaLpMin σ l) / (u * koyamaLpMin σ l) = (lp - koyamaLpMin σ l) / koyamaLpMin σ l := by
+      field_simp
+    rw [e]
+
 /-- the kernel parameters are admissible (`B > 0`, `A² ≥ 0` — the hypotheses of the `…_partial` theorems above) exactly when
 the moments satisfy `r2 > 0` and `r2² ≤ r4 < (5/3) r2²`, i.e. `0 < C ≤ 1` -/
 theorem koyama_params_ok (r2 r4 : ℝ) (h2 : 0 < r2) (hlo : r2 ^ 2 ≤ r4) (hhi : 3 * r4 < 5 * r2 ^ 2) :
